@@ -88,8 +88,14 @@ def key_obj(key):
 @st.composite
 def case_strategy(draw):
     op = draw(st.sampled_from(["cnum", "cseq", "cmat", "cblocks", "get1", "get2", "set1", "set2", "bin", "bin", "bin", "rbin",
-                               "pow", "mod", "imod", "unary", "resize", "builtin", "elem", "elemnum", "inplace", "inplace"]))
+                               "pow", "mod", "imod", "unary", "resize", "builtin", "elem", "elemnum", "inplace", "inplace", "cbuf"]))
     c = dict(op=op)
+    if op == "cbuf":
+        # construction from objects that export the buffer protocol (numpy arrays and views with any strides and
+        # memory order, array.array, memoryviews, casts): generator and oracle are shared with C20
+        from checks import c20
+        c["imp"] = draw(c20.import_st())
+        return c
     if op == "elemnum":
         # the elementwise functions with scalar arguments only ("the arguments must be matrices of the same size, or scalars")
         pool = st.one_of(st.integers(-6, 6), st.integers(-6, 6).map(lambda k: k / 2.0),
@@ -565,6 +571,11 @@ def oracle(case, stats=None):
         if list(A) != snap:
             raise Violation("elementwise %s modified its argument" % f)
         labels.append("f:" + f)
+    elif op == "cbuf":
+        from checks import c20
+        c20.import_oracle(case["imp"], None)
+        labels.append("buffer:" + case["imp"]["src"])
+        out = "ok"
     elif op == "elemnum":
         f, a, b = case["f"], case["a"], case["b"]
         fn = {"mul": cvxopt.mul, "div": cvxopt.div, "max": cvxopt.max, "min": cvxopt.min}[f]
